@@ -34,7 +34,8 @@ U_SAME = ("class Helper:\n    def meth(self, q: str) -> str:\n        ...\n\n\nc
 
 def m_source(base: str, order: int) -> str:
     decls = list(M_DECLS)
-    head = ["from __future__ import annotations", "from enum import Enum", "from typing import Generic, TypeVar", "", 'T = TypeVar("T")']
+    head = ["from __future__ import annotations", "from decimal import Decimal", "from enum import Enum", "from typing import Generic, TypeVar", "", 'T = TypeVar("T")']
+    decls.append("def money(d: Decimal) -> Decimal:\n    ...\n")      # a class of another library; an unrelated module may define a class of that name
     if base == "references-sibling":
         head.append(f"from {PKG}.sibmod import Sibling")
         decls.append("def uses_sibling(s: Sibling) -> Sibling:\n    ...\n")
@@ -69,6 +70,8 @@ def package(base: str, u: int, u2: int, order: int, ri: int = 0):
     if u:
         files["umod.py"] = content[u]
         files["amod.py"] = content[u].replace("OtherReport", "OtherReportA") if u == 4 else TRAIL.format(body=content[u].replace("Unrelated", "UnrelatedA").replace("unrelated_fun", "unrelated_fun_a"), name="ARec")
+    if u == 3:      # ... in a module whose path ends like the other library's ("decimal")
+        files["bigdecimal.py"] = "class Decimal:\n    pass\n"
     if u2:
         files["renamed_umod.py"] = content[u2]
     if ri:      # the root __init__ re-exports the unrelated module's class that is named like the one M uses
